@@ -1214,7 +1214,7 @@ pub static C01: PropDef = PropDef {
 pub static C02: PropDef = PropDef {
     id: "C02",
     level: "exploration",
-    rule: "as C01 plus short-read and short-write plans (each parent read() may be cut to k>=1 bytes; a write may return short where POSIX allows it: above PIPE_BUF on pipes, at any size on a byte stream) and the read_string variant. Oracle: ground-truth record of the simulated child: returned bytes per stream equal what the child wrote (prefix on error), absent iff not piped, bytes written to stdin are exactly the input in order, child sees EOF only after the whole input, close(stdin) follows the last accepted byte before the next poll, text variant equals lossy decoding. Non-trivial = a short read/write actually happened, or a stream crossed the 4096-byte chunk, or both streams carried data. Blocking polls are interrupted by a signal handler (EINTR) in a sixth of the cases; the data returned with the error and by the resumed reads must still add up exactly.",
+    rule: "as C01 plus short-read and short-write plans (each parent read() may be cut to k>=1 bytes; a write may return short where POSIX allows it: above PIPE_BUF on pipes, at any size on a byte stream) and the read_string variant. Oracle: ground-truth record of the simulated child: returned bytes per stream equal what the child wrote (prefix on error), absent iff not piped, bytes written to stdin are exactly the input in order, child sees EOF only after the whole input, close(stdin) follows the last accepted byte before the next poll, text variant equals lossy decoding. Non-trivial = a short read/write actually happened, or a stream crossed the 4096-byte chunk, or both streams carried data. Blocking polls are interrupted by a signal handler (EINTR) in a sixth of the cases; the data returned with the error and by the resumed reads must still add up exactly. A child that keeps producing output until its input has arrived must get its input and its end-of-file while it does so: an exchange in which such a child has produced more than 16 MiB + 16 x the input is reported as input withheld.",
     assumptions: SIMK_ASSUMPTIONS,
     engines: "simk",
     workers: |_| 16,
@@ -1236,7 +1236,7 @@ pub static C03: PropDef = PropDef {
 pub static C04: PropDef = PropDef {
     id: "C04",
     level: "exploration",
-    rule: "histories of up to 8 reads with time limits from {0, sub-ms, ms..10 s, 2^31 ms +- 1 s, 30 days, 10 years} (optionally size limits), children that are silent, silent forever, trickling, flooding, closing stdin early with the pipe full, or producing output after 26 days; virtual clock. Oracle: at most 2 polls and 6 reads/writes are entered after the deadline; TimedOut only if the virtual instant of return is >= deadline - 1 ms and never without a limit; pieces across timed-out and successful reads concatenate to the child's record; input delivered exactly once. Non-trivial = a timeout followed by a later read returning data, or a limit beyond i32::MAX ms, or a flooding child, or stdin closed early.",
+    rule: "histories of up to 8 reads with time limits from {0, sub-ms, ms..10 s, 2^31 ms +- 1 s, 30 days, 10 years} (optionally size limits), children that are silent, silent forever, trickling, flooding, closing stdin early with the pipe full, or producing output after 26 days; virtual clock. Oracle: at most 2 polls and 6 reads/writes are entered after the deadline; TimedOut only if the virtual instant of return is >= deadline - 1 ms and never without a limit; pieces across timed-out and successful reads concatenate to the child's record; input delivered exactly once. Non-trivial = a timeout followed by a later read returning data, or a limit beyond i32::MAX ms, or a flooding child, or stdin closed early. The limit may also be Duration::MAX (a limit that cannot be added to the clock).",
     assumptions: SIMK_ASSUMPTIONS,
     engines: "simk",
     workers: |_| 16,
